@@ -12,7 +12,9 @@ R3 clearing and allocation  : SUP := DEM on every path; the supplier allocations
 R4 asset weights            : in the asset-weighting helper sum DEM_x == F; the money market's default demand is F."""
 import ast
 
-from ..loader import AnalysisError
+from ..inline import flatten
+
+from ..loader import AnalysisError, unparse
 from .. import effects
 from ..ledger import UnitLedger, show_scenario
 from ..algebra import Poly, Reader, make_sum, short, mentions_elem
@@ -89,6 +91,20 @@ def run(prog, check):
                 if h.kind == 'fold':
                     coll = L.colls.get(h.args[0])
                     agg.append((h.args[0], h.args[2], h.args[1], e.where, coll))
+        # sector demands collected in a mapping keyed by the short code collide across the countries of a zone
+        mflat = flatten(prog, m)
+        for loop_ in [x for x in ast.walk(mflat.node) if isinstance(x, ast.For) and isinstance(x.target, ast.Name)]:
+            lv_ = loop_.target.id
+            for st_ in ast.walk(loop_):
+                if isinstance(st_, ast.Assign) and len(st_.targets) == 1 and isinstance(st_.targets[0], ast.Subscript) and \
+                        isinstance(st_.targets[0].value, ast.Name):
+                    k_ = st_.targets[0].slice
+                    if isinstance(k_, ast.Attribute) and isinstance(k_.value, ast.Name) and k_.value.id == lv_ and k_.attr in ('Code', 'LongName'):
+                        check.ob('C04.R1', '%s::collection-keyed-by-unique-key(%s)' % (ukey, unparse(st_.targets[0])), False,
+                                 '%s:%d' % (m.module.rel, st_.lineno),
+                                 'per-sector entries are stored under `%s`, which is unique only within a country: in a zone with several '
+                                 'countries / regions the entries of equally named sectors overwrite each other' % unparse(k_),
+                                 'two regions of one currency zone, each with a household HH')
         if not agg:
             check.ob('C04.R1', '%s::aggregates-demand' % ukey, False, m.where, 'no aggregation of sector demands into DEM_<market> found',
                      'any demander')
@@ -168,8 +184,14 @@ def run(prog, check):
                     hs = [h for h in e.rhs.holes() if h.kind == 'fullname' and h.args[0] == SELF]
                     tgt_ok = bool(hs) and any(hh.kind == 'fullcode' and hh.args[0] == e.role for hh in hs[0].args[1].holes())
                     cross = any(g.cond.kind == 'samezone' and not g.pol for g in e.guards)
-                    has_rate = any(h.kind == 'fullname' and h.args[0].kind == 'ext' for h in e.rhs.holes())
-                    ok = tgt_ok and (has_rate == cross)
+                    rates = [h for h in e.rhs.holes() if h.kind == 'fullname' and h.args[0].kind == 'ext']
+                    has_rate = bool(rates)
+                    # the rate converts from the market's currency into the supplier's
+                    pair_ok = True
+                    for rh in rates:
+                        curs = [hh.args[0] for hh in rh.args[1].holes() if hh.kind == 'currency']
+                        pair_ok = pair_ok and curs == [SELF, e.role]
+                    ok = tgt_ok and (has_rate == cross) and pair_ok
                     check.ob('C04.R3', '%s::supplier-receives-allocation(%s,%s)' % (ukey, e.role.show(), 'cross' if cross else 'same-zone'),
                              ok, e.where,
                              'the supplier\'s own supply variable receives the market\'s allocation for this supplier%s' % (' times the cross rate' if cross else '')
